@@ -116,19 +116,28 @@ package parser
 //@   requires specLexWF(self)
 //@   loop 1 vars offset int, length int
 //@   loop 1 invariant specLexWF(self) && 0 <= offset && offset <= self.chrOffset && length >= 0 [cursor-wf]
+//@   loop 1 invariant length <= self.chrOffset-offset [counted-units-fit-in-the-text-read-so-far]
 //@   loop 2 vars offset int, length int
 //@   loop 2 invariant specLexWF(self) && 0 <= offset && offset <= self.chrOffset && length >= 0 [cursor-wf]
+//@   loop 2 invariant length+1 <= self.chrOffset-offset [counted-units-fit-in-the-text-read-so-far]
 //@   loop 3 vars offset int, j int, length int
 //@   loop 3 invariant specLexWF(self) && 0 <= offset && offset <= self.chrOffset && j >= 0 && length >= 0 [cursor-wf]
+//@   loop 3 invariant length+j <= self.chrOffset-offset && self.chr != -1 [counted-units-fit-in-the-text-read-so-far]
 //@   ensures specLexWF(self) [cursor-wf]
 
 //@ func (*_parser).scanEscape safe
 //@   props C01
 //@   requires specLexWF(self)
+//@   loop 1 vars value uint32
 //@   loop 1 invariant specLexWF(self) && self.str == old(self.str) && self.chrOffset >= old(self.chrOffset) [cursor-wf]
+//@   loop 1 invariant value == 0 || self.chrOffset > old(self.chrOffset) [a-digit-was-read-for-a-nonzero-value]
+//@   loop 2 vars value uint32
 //@   loop 2 invariant specLexWF(self) && self.str == old(self.str) && self.chrOffset >= old(self.chrOffset) [cursor-wf]
+//@   loop 2 invariant self.chrOffset > old(self.chrOffset) [the-u-was-read]
 //@   ensures specLexWF(self) && self.chrOffset >= old(self.chrOffset) && self.str == old(self.str) [cursor-wf-and-monotone]
-//@   ensures result0 >= 0 [counts-code-units]
+//@   ensures result0 >= 1 && result0 <= 2 [counts-code-units]
+// An escape stands for at most as many UTF-16 units as the bytes it occupies, backslash included.
+//@   ensures old(self.chr) != -1 ==> result0 <= self.chrOffset-old(self.chrOffset)+1 [counted-units-fit-in-the-text-read-so-far]
 
 //@ func (*_parser).idxOf pure
 
@@ -136,8 +145,11 @@ package parser
 //@ func (*_parser).scanString safe
 //@   props C01
 //@   requires specLexWF(self) && 0 <= offset && offset < self.chrOffset
-//@   loop 1 vars offset int, quote rune, length int
+// A literal to be parsed is a quoted string; the slash form (a regular expression body) is only cut out.
+//@   requires parse ==> self.str[offset] != '/'
+//@   loop 1 vars offset int, quote rune, length int, parse bool
 //@   loop 1 invariant specLexWF(self) && 0 <= offset && offset < self.chrOffset && self.str == old(self.str) && quote >= -1 && (quote == -1 ==> self.chrOffset >= offset+2) && length >= 0 [cursor-wf]
+//@   loop 1 invariant (parse ==> quote >= 0 && quote != '/') && length <= self.chrOffset-offset-1 [counted-units-fit-in-the-text-read-so-far]
 //@   ensures specLexWF(self) [cursor-wf]
 
 //@ func isDecimalDigit pure
